@@ -119,7 +119,7 @@ PROPS['C06'] = dict(
     level='model_checking',
     mc=[xixi_mc('MC_Merge', ['MapSemantics', 'QuiescentLiveEqualsRecovered', 'RecoveredOK', 'NeverFails', 'AccountingExact'],
                 properties=['MergeDirGone', 'AdoptedDirIsMinimal'], Features='{"batch", "merge", "restart", "delete"}',
-                quick=dict(MaxOps=3, MaxMerges=2, MaxRestarts=2, Limit=2), thorough=dict(MaxOps=5, MaxMerges=2, MaxRestarts=2, Limit=2))],
+                quick=dict(MaxOps=3, MaxMerges=2, MaxRestarts=2, Limit=2), thorough=dict(MaxOps=4, MaxMerges=2, MaxRestarts=2, Limit=2))],
     traces=[dict(profile='merge', spec='EngineTrace',
                  enforce=['res', 'bres', 'open', 'vals', 'keys', 'fold', 'scan', 'index', 'nomdir', 'adopted', 'statkeys'],
                  quick_seeds=1, thorough_seeds=2),
@@ -135,7 +135,7 @@ PROPS['C18'] = dict(
     level='model_checking',
     mc=[xixi_mc('MC_Hint', ['QuiescentLiveEqualsRecovered', 'RecoveredOK', 'NeverFails', 'MapSemantics'],
                 properties=['AdoptedDirIsMinimal'], Features='{"batch", "merge", "restart", "delete"}',
-                quick=dict(MaxOps=4, MaxMerges=1, MaxRestarts=2, Limit=1), thorough=dict(MaxOps=5, MaxMerges=2, MaxRestarts=2, Limit=1))],
+                quick=dict(MaxOps=4, MaxMerges=1, MaxRestarts=2, Limit=1), thorough=dict(MaxOps=4, MaxMerges=2, MaxRestarts=2, Limit=1))],
     traces=[dict(profile='merge', spec='EngineTrace', enforce=['hint', 'hintcmp', 'open'],
                  quick_seeds=1, thorough_seeds=2)],
     assumptions=E_ASSUME + ['the hint file and the rewritten files are decoded with the package\'s own readers (C11/C12 decide those)',
@@ -162,8 +162,15 @@ PROPS['C03'] = dict(
     mc=[xixi_mc('MC_Crash', ['RecoveredOK', 'NeverFails', 'MapSemantics', 'SyncObligations'],
                 Features='{"batch", "syncbatch", "delete", "sync", "crash", "powerloss", "torn"}', MaxMerges=0, MaxRestarts=0,
                 quick=dict(MaxOps=4, MaxFaults=1, Keys='{1, 2}', Vals='{1, 2}', BigVals='{}'),
-                thorough=dict(MaxOps=5, MaxFaults=2, Keys='{1, 2}', Vals='{1, 2}', BigVals='{}'))],
+                thorough=dict(MaxOps=5, MaxFaults=2, Keys='{1, 2}', Vals='{1, 2}', BigVals='{}')),
+        # power failure after a finished (marked, not yet adopted) merge: the merge directory survives, unflushed tails do not
+        xixi_mc('MC_MergePower', ['RecoveredOK', 'NeverFails', 'MapSemantics'],
+                Features='{"merge", "delete", "powerloss", "restart"}', MaxFaults=1, MaxMerges=1, MaxRestarts=1, Limit=2, Vals='{1, 2}', BigVals='{}',
+                quick=dict(MaxOps=3), thorough=dict(MaxOps=4, Features='{"merge", "delete", "powerloss", "restart", "batch"}'))],
     traces=[dict(profile='crash', spec='CrashTrace', enforce=['recok'], consts=CRASH_CONSTS, sig=crash_sig,
+                 quick_seeds=1, thorough_seeds=2),
+            # writes racing with a merge, power failure once the merge is marked (predicted by MC_MergePower, F30)
+            dict(profile='mergepower', spec='CrashTrace', enforce=['recok'], consts=CRASH_CONSTS, sig=crash_sig,
                  quick_seeds=1, thorough_seeds=2)],
     rule='distinct (crash kind, Open outcome, intercepted I/O kind at the image, continued?, clean?) tuples and distinct call kinds; trivial = none',
     assumptions=CRASH_ASSUME,
@@ -174,11 +181,11 @@ PROPS['C04'] = dict(
     mc=[xixi_mc('MC_BatchCrash', ['RecoveredOK', 'NeverFails', 'MapSemantics', 'SyncBatchDurable', 'FileSizeRespected'],
                 Features='{"batch", "syncbatch", "delete", "crash", "powerloss", "restart"}', MaxMerges=0,
                 quick=dict(MaxOps=4, MaxBatch=3, MaxFaults=1, MaxRestarts=1, Keys='{1, 2}', Vals='{1, 3}', BigVals='{3}'),
-                thorough=dict(MaxOps=6, MaxBatch=4, MaxFaults=2, MaxRestarts=1, Keys='{1, 2}', Vals='{1, 3}', BigVals='{3}')),
+                thorough=dict(MaxOps=5, MaxBatch=3, MaxFaults=2, MaxRestarts=1, Keys='{1, 2}', Vals='{1, 3}', BigVals='{3}')),
         xixi_mc('MC_BatchMerge', ['RecoveredOK', 'NeverFails', 'MapSemantics', 'QuiescentLiveEqualsRecovered'],
                 Features='{"batch", "delete", "merge", "restart", "crash"}',
                 quick=dict(MaxOps=4, MaxBatch=3, MaxFaults=1, MaxRestarts=1, MaxMerges=1, Vals='{1}', BigVals='{}'),
-                thorough=dict(MaxOps=5, MaxBatch=3, MaxFaults=1, MaxRestarts=2, MaxMerges=1, Vals='{1, 2}', BigVals='{}'))],
+                thorough=dict(MaxOps=4, MaxBatch=3, MaxFaults=1, MaxRestarts=2, MaxMerges=1, Vals='{1, 2}', BigVals='{}'))],
     traces=[dict(profile='batchcrash', spec='CrashTrace', enforce=['recok', 'c13batch'], consts=CRASH_CONSTS, sig=crash_sig,
                  quick_seeds=1, thorough_seeds=2),
             dict(profile='batch', spec='EngineTrace', enforce=['open', 'vals', 'keys', 'scan', 'index'], quick_seeds=1, thorough_seeds=1),
@@ -209,10 +216,10 @@ PROPS['C07'] = dict(
     mc=[xixi_mc('MC_MergeCrash', ['RecoveredOK', 'NeverFails', 'MapSemantics', 'QuiescentLiveEqualsRecovered', 'LockDiscipline'],
                 properties=['MergeDirGone'], Features='{"merge", "delete", "crash", "restart"}',
                 quick=dict(MaxOps=3, MaxFaults=2, MaxMerges=2, MaxRestarts=1, Limit=2, Vals='{1, 2}', BigVals='{}'),
-                thorough=dict(MaxOps=4, MaxFaults=2, MaxMerges=2, MaxRestarts=2, Limit=2, Vals='{1, 2}', BigVals='{}')),
+                thorough=dict(MaxOps=3, MaxFaults=3, MaxMerges=2, MaxRestarts=1, Limit=2, Vals='{1, 2}', BigVals='{}')),
         xixi_mc('MC_MergeCrashBatch', ['RecoveredOK', 'NeverFails', 'MapSemantics'],
                 Features='{"merge", "batch", "delete", "crash"}', tiers=['thorough'],
-                thorough=dict(MaxOps=4, MaxFaults=2, MaxMerges=1, MaxBatch=2, Limit=1, Vals='{1, 2}', BigVals='{}'))],
+                thorough=dict(MaxOps=4, MaxFaults=1, MaxMerges=1, MaxBatch=2, Limit=2, Vals='{1}', BigVals='{}'))],
     traces=[dict(profile='mergecrash', spec='CrashTrace', enforce=['recok'], consts=CRASH_CONSTS, sig=crash_sig,
                  quick_seeds=1, thorough_seeds=2)],
     rule='distinct (Open outcome, engine point or I/O kind at the image incl. /retry and /partial-rm variants, continued?, clean?) tuples; trivial = none',
